@@ -29,6 +29,26 @@ CHECKS = {
              "closing updates are preceded by a suspension",
         design="4/C04",
     ),
+    "C05": dict(
+        category="exploration",
+        technique="Hypothesis-generated (book, order, client options, later trades) cases run through the real simulation; "
+                  "matching-validity predicates on every fragment at the moment it appears",
+        text="Each case is one real placement against a generated book followed by generated trade updates; limit, VWAP, "
+             "per-level availability, FOK all-or-nothing / never-rests and BPE-lapse predicates judged against the book "
+             "snapshot rendered independently from the case. Held on everything explored.",
+        note="validity predicates, not a second matcher; SP conversion fills excluded by construction",
+        design="4/C05",
+    ),
+    "C07": dict(
+        category="exploration",
+        technique="Hypothesis-generated single-market and event-grouped simulation runs judged against an independent "
+                  "latency timeline oracle, plus a metamorphic with/without-request comparison",
+        text="For every accepted request the effective update is predicted from publish times, configured latency and bet "
+             "delay and compared with observed order state at every callback; arrival fills must exist in the book before the "
+             "effective update; all recorded timestamps bounded by the simulated clock. Held on everything explored.",
+        note="updates falling exactly on the latency boundary accept either neighbour; clock observed through utcnow() in callbacks",
+        design="4/C07",
+    ),
 }
 
 NOT_BUILT_REASON = "check not built yet (build in progress; see DESIGN.md section 4)"
